@@ -48,7 +48,7 @@ func runC19(r *rep.Report, thorough bool) error {
 		return err
 	}
 	defer d.Close()
-	r.Rule = "exhaustive: every list up to length L over 3 ids x 2 contents x 2 priorities (every permutation of a list is itself enumerated and grouped by multiset); random: lists up to 200 over ids with shared prefixes/unicode, 3 shuffles each. non-trivial = at least two declarations sharing an id or differing in priority; distinct by content hash"
+	r.Rule = "exhaustive: every list up to length L over 3 ids x 2 contents (one of them empty) x 2 priorities (every permutation of a list is itself enumerated and grouped by multiset); random: lists up to 200 over ids with shared prefixes/unicode, 3 shuffles each. non-trivial = at least two declarations sharing an id or differing in priority; distinct by content hash"
 
 	permOut := map[string]string{} // multiset -> impl output (consistent lists only)
 	check := func(ds []jDecl, track bool) error {
@@ -106,7 +106,7 @@ func runC19(r *rep.Report, thorough bool) error {
 	// exhaustive part
 	var alphabet []jDecl
 	for _, id := range []string{"a", "ab", "b"} {
-		for _, c := range []string{"X", "Y"} {
+		for _, c := range []string{"X", ""} { // an empty content is a declaration like any other
 			for _, p := range []bool{false, true} {
 				alphabet = append(alphabet, jDecl{id, c, p})
 			}
@@ -164,6 +164,9 @@ func runC19(r *rep.Report, thorough bool) error {
 			}
 			if incons && rng.Intn(3) == 0 {
 				content = fmt.Sprint("v", rng.Intn(3))
+			}
+			if rng.Intn(6) == 0 {
+				content = "" // several generators emit empty declarations
 			}
 			ds[k] = jDecl{id, content, rng.Intn(3) == 0}
 		}
